@@ -283,8 +283,16 @@ class TaskDispatcher(object):
         if branch_id and execution_arn in branch_metadata:
             # Get the dict containing all the branch results for this execution
             all_branch_results = branch_metadata[execution_arn].results
-            branch_results = all_branch_results[branch_id]
-            if branch_results.get("terminated"):
+            branch_results = all_branch_results.get(branch_id)
+            """
+            The Branch results are initialised when the Task State's event is
+            received, before the Task is executed, so if they are no longer
+            there they have been tidied up with those of their execution
+            (e.g. the error of another Branch was caught, and the execution
+            has since ended, whilst this Task was still outstanding). The
+            Map or Parallel State that this Task belongs to is long gone.
+            """
+            if branch_results == None or branch_results.get("terminated"):
                 return True
         return False
 
